@@ -98,11 +98,20 @@ VH_CMD(filestxt) {
 
 // lookup src files* : writeFilesTxt into a scratch build dir, then getAnalyzerInfoFile
 VH_CMD(lookup) {
-    static const std::string dir = [] {
-        char tmpl[] = "/tmp/vh_c18_XXXXXX";
-        const char* d = mkdtemp(tmpl);
-        return std::string(d ? d : "/tmp");
-    }();
+    struct ScratchDir {
+        std::string d;
+        ScratchDir() {
+            char tmpl[] = "/tmp/vh_c18_XXXXXX";
+            const char* r = mkdtemp(tmpl);
+            d = r ? r : "/tmp";
+        }
+        ~ScratchDir() {
+            if (d != "/tmp")
+                rmdir(d.c_str());
+        }
+    };
+    static const ScratchDir scratch;
+    const std::string& dir = scratch.d;
     const std::list<std::string> files(a.begin() + 1, a.end());
     AnalyzerInformation::writeFilesTxt(dir, files, {});
     std::string r = AnalyzerInformation::getAnalyzerInfoFile(dir, a.at(0), "", 0);
